@@ -1,6 +1,7 @@
 package main
 
 import (
+	"sync/atomic"
 	"time"
 
 	"verif/internal/h"
@@ -33,7 +34,7 @@ func schedCheck(rule string) func(c *h.Ctx) {
 			}
 			h.Par(len(specs), 16, func(i int) {
 				specs[i].Idx = 5000 + i
-				if runCancelCase(c, specs[i], false, true) == "suspect" {
+				if runCancelCase(c, specs[i], false, true) == "suspect" && atomic.LoadInt32(&confirmedSlow) < 3 {
 					again := 0
 					for k := 0; k < 3; k++ {
 						if runCancelCase(c, specs[i], false, false) == "suspect" {
@@ -41,6 +42,7 @@ func schedCheck(rule string) func(c *h.Ctx) {
 						}
 					}
 					if again == 3 {
+						atomic.AddInt32(&confirmedSlow, 1)
 						c.Violate("cancelled-run-did-not-return/real-runner", "cancelled pipeline on the real TaskRunner exceeded its bound four times", specs[i])
 					}
 				}
